@@ -29,8 +29,11 @@ Record cfg := {
   permits : N;                (* Semaphore::new(n) in WorkspaceLock::new *)
   shared_lock : bool;         (* SessionEngine::new creates ONE lock and hands it to sessions and TaskEngine *)
   stray_sites : N;            (* tool / checkpoint / task run call sites outside the analysed spans *)
-  lockfree : list str;        (* the matches! list of requires_workspace_lock *)
+  class_default_lock : bool;  (* what requires_workspace_lock answers for a name it does not list *)
+  class_listed : list str;    (* the names it lists (they get the opposite answer): a deny list
+                                 `!matches!(name, ..)` has default true, an allow list default false *)
   registered : list str;      (* names + aliases registered in rip-tools builtins *)
+  aliases : list (str * str); (* register_alias(alias, target) *)
   span_tool : list op;        (* session.rs envelope tool, locked branch *)
   span_ro : list op;          (* session.rs envelope tool, lock-free branch *)
   span_loop_tool : list op;   (* agent loop, locked branch *)
@@ -40,7 +43,7 @@ Record cfg := {
 }.
 
 Definition requires_lock (c : cfg) (name : str) : bool :=
-  negb (existsb (str_eqb name) (lockfree c)).
+  if existsb (str_eqb name) (class_listed c) then negb (class_default_lock c) else class_default_lock c.
 
 (* The classification the property text fixes (mutating: write, apply_patch, bash, shell tasks;
    read-only: read, ls, grep, artifact_fetch), as code points. *)
@@ -58,14 +61,18 @@ Definition spec_mutating : list str := [s_write; s_apply_patch; s_bash; s_shell]
 
 Definition mem (x : str) (l : list str) : bool := existsb (str_eqb x) l.
 
-(* every registered tool is classified by the property text, and the code's classification agrees;
-   nothing outside the read-only list is lock-free *)
+(* every registered tool name AND alias is classified by the property text, and the code's
+   classification (made on the name as the caller gives it, before the registry resolves aliases)
+   agrees; an alias is classified like its target; with a deny list nothing outside the read-only
+   list is lock-free *)
 Definition wf_classes (c : cfg) : bool :=
   forallb (fun n => mem n spec_readonly || mem n spec_mutating) (registered c)
   && forallb (fun n => Bool.eqb (requires_lock c n) (mem n spec_mutating)) (registered c)
-  && forallb (fun n => mem n spec_readonly) (lockfree c)
+  && (if class_default_lock c then forallb (fun n => mem n spec_readonly) (class_listed c) else true)
   && forallb (fun n => mem n (registered c)) spec_mutating
-  && forallb (fun n => mem n (registered c)) spec_readonly.
+  && forallb (fun n => mem n (registered c)) spec_readonly
+  && forallb (fun a => Bool.eqb (requires_lock c (fst a)) (requires_lock c (snd a))
+                       && mem (fst a) (registered c) && mem (snd a) (registered c)) (aliases c).
 
 Fixpoint count_op (o : op) (s : list op) : nat :=
   match s with [] => 0 | x :: r => (if op_eqb o x then 1 else 0) + count_op o r end.
@@ -276,8 +283,10 @@ Definition lift (k : N) (s : dsh) : dstate :=
    check uses the regenerated Gen.LockSpans.gen_cfg) *)
 Definition ref_cfg : cfg := {|
   permits := 1; shared_lock := true; stray_sites := 0;
-  lockfree := [s_read; s_ls; s_grep; s_artifact_fetch];
+  class_default_lock := true;
+  class_listed := [s_read; s_ls; s_grep; s_artifact_fetch];
   registered := [s_read; s_artifact_fetch; s_write; s_apply_patch; s_ls; s_grep; s_bash; s_shell];
+  aliases := [(s_shell, s_bash)];
   span_tool := [OAcquire; ORun; OEmit; OAppend; ORelease];
   span_ro := [ORun; OEmit];
   span_loop_tool := [OAcquire; ORun; OEmit; OAppend; ORelease];
